@@ -1166,8 +1166,9 @@ def _alias_sources(v):
     return []
 
 
-def _effects(fn):
-    """writes rooted at an argument (or at an alias of an argument-rooted location)"""
+def _effects(fn, module_names=()):
+    """writes rooted at an argument (or at an alias of an argument-rooted location), and writes into
+    module-level objects (hidden state that would make a repeated call differ)"""
     params = {a.arg for a in fn.args.args + fn.args.kwonlyargs} | ({fn.args.vararg.arg} if fn.args.vararg else set())
     tainted = set(params)
     fresh = set()
@@ -1212,6 +1213,25 @@ def _effects(fn):
             out.append((n.lineno, "call " + ast.unparse(n.func)))
         if isinstance(n, (ast.Global, ast.Nonlocal)):
             out.append((n.lineno, "global " + ",".join(n.names)))
+    # module-level state: a store / mutating call whose root is a module-level variable that the function does not rebind
+    local = set(params)
+    for n in body_nodes:
+        if isinstance(n, ast.Name) and isinstance(n.ctx, ast.Store):
+            local.add(n.id)
+    for n in body_nodes:
+        tgts = []
+        if isinstance(n, ast.Assign):
+            for t in n.targets:
+                tgts += list(t.elts) if isinstance(t, (ast.Tuple, ast.List)) else [t]
+        elif isinstance(n, (ast.AugAssign, ast.AnnAssign)):
+            tgts = [n.target]
+        elif isinstance(n, ast.Delete):
+            tgts = n.targets
+        for t in tgts:
+            if isinstance(t, (ast.Attribute, ast.Subscript)) and _root(t) in module_names and _root(t) not in local:
+                out.append((n.lineno, "module-state store " + ast.unparse(t)))
+        if isinstance(n, ast.Call) and isinstance(n.func, ast.Attribute) and n.func.attr in MUTATORS and _root(n.func.value) in module_names and _root(n.func.value) not in local:
+            out.append((n.lineno, "module-state call " + ast.unparse(n.func)))
     return out
 
 
@@ -1221,10 +1241,11 @@ def _(repo):
     nfun = 0
     for rel in PURITY_FILES:
         mod = parse(repo, rel)
+        module_names = {t.id for n in mod.body if isinstance(n, (ast.Assign, ast.AnnAssign)) for t in (n.targets if isinstance(n, ast.Assign) else [n.target]) if isinstance(t, ast.Name)}
         for n in ast.walk(mod):
             if isinstance(n, ast.FunctionDef) and n.name not in CTOR_TIME:
                 nfun += 1
-                for line, what in _effects(n):
+                for line, what in _effects(n, module_names):
                     rows.append((rel, n.name, line, what))
         # module-level mutable state written from functions is reported by `global`; module-level caches:
         for n in mod.body:
